@@ -58,6 +58,11 @@ def evaluate(case):
     _, _, ug = tr.fourier_transform(x, y, xo, xmax=hi, dy_in=e + grow, **kw)
     if (np.asarray(ug) < u - 1e-12 * sc).any():
         fails.append("transform uncertainty decreased when an input uncertainty grew")
+    # an output point next to the origin (an r grid started at 1e-10 "to avoid r = 0"): the bound holds there as anywhere
+    if float(np.abs(x).max()) > 0:
+        xo = np.concatenate([xo, [1e-9 / float(np.abs(x).max())]])
+        _, _, u = tr.fourier_transform(x, y, xo, xmax=hi, dy_in=e, **kw)
+        u = np.asarray(u, dtype=float)
     # exact uncorrelated propagation through the trapezoid weights
     top = float(x.max()) if hi is None else hi
     m = x <= top
